@@ -39,66 +39,67 @@ Section Oracles.
   Variable mredir : str -> str -> option verdict.
   Variable cdres : str -> str -> str.
   Variable injrisk : ctx -> list str -> bool.
-  Notation walk := (walk simple astr mredir cdres injrisk).
-  Notation ev := (ev simple astr mredir cdres injrisk).
+  Variable rulematch : ctx -> list str -> bool.
+  Notation walk := (walk simple astr mredir cdres injrisk rulematch).
+  Notation ev := (ev simple astr mredir cdres injrisk rulematch).
 
   (* pipelines *)
   Theorem C03_pipeline : forall c stages, walk c (pipeline stages) = combine (map (walk c) stages).
-  Proof. exact (pipeline_join simple astr mredir cdres injrisk). Qed.
+  Proof. exact (pipeline_join simple astr mredir cdres injrisk rulematch). Qed.
   Theorem C03_pipeline_order : forall c s1 s2, Permutation s1 s2 -> walk c (pipeline s1) = walk c (pipeline s2).
-  Proof. exact (pipeline_order simple astr mredir cdres injrisk). Qed.
+  Proof. exact (pipeline_order simple astr mredir cdres injrisk rulematch). Qed.
   Theorem C03_pipeline_flatten : forall c s1 s2 s3,
     walk c (pipeline (s1 ++ pipeline s2 :: s3)) = walk c (pipeline (s1 ++ s2 ++ s3)).
-  Proof. exact (pipeline_flatten simple astr mredir cdres injrisk). Qed.
+  Proof. exact (pipeline_flatten simple astr mredir cdres injrisk rulematch). Qed.
 
   (* lists joined by ; && || & newline *)
   Theorem C03_list : forall c parts, Forall plain_part parts -> walk c (oplist parts) = combine (map (walk c) parts).
-  Proof. exact (list_join simple astr mredir cdres injrisk). Qed.
+  Proof. exact (list_join simple astr mredir cdres injrisk rulematch). Qed.
   Theorem C03_list_order : forall c p1 p2, Forall plain_part p1 -> Permutation p1 p2 ->
     walk c (oplist p1) = walk c (oplist p2).
-  Proof. exact (list_order simple astr mredir cdres injrisk). Qed.
+  Proof. exact (list_order simple astr mredir cdres injrisk rulematch). Qed.
   (* any list node at all, cd included: each part judged in the directory it runs in *)
   Theorem C03_list_cd : forall c ss fs ks, let t := T $"list" ss fs ks in
     walk c t = combine (map (fun p => walk (fst p) (snd p)) (seq_ctxs cdres c (seq_parts t))).
-  Proof. exact (list_join_cd simple astr mredir cdres injrisk). Qed.
+  Proof. exact (list_join_cd simple astr mredir cdres injrisk rulematch). Qed.
 
   (* ! time function coproc subshell brace-group, nested to any depth *)
   Theorem C03_depth : forall c ws t, walk c (nest ws t) = walk c t.
-  Proof. exact (nest_transparent simple astr mredir cdres injrisk). Qed.
+  Proof. exact (nest_transparent simple astr mredir cdres injrisk rulematch). Qed.
 
   (* if / while / until *)
   Theorem C03_if : forall c cond thn els,
     walk c (mk_if cond thn els) = combine (walk c cond :: walk c thn :: match els with Some e => [walk c e] | None => [] end).
-  Proof. exact (if_join simple astr mredir cdres injrisk). Qed.
+  Proof. exact (if_join simple astr mredir cdres injrisk rulematch). Qed.
   Theorem C03_while : forall c cond body, walk c (mk_loop "while" cond body) = combine [walk c cond; walk c body].
-  Proof. exact (while_join simple astr mredir cdres injrisk). Qed.
+  Proof. exact (while_join simple astr mredir cdres injrisk rulematch). Qed.
   Theorem C03_until : forall c cond body, walk c (mk_loop "until" cond body) = combine [walk c cond; walk c body].
-  Proof. exact (until_join simple astr mredir cdres injrisk). Qed.
+  Proof. exact (until_join simple astr mredir cdres injrisk rulematch). Qed.
 
   (* every compound node kind, whatever other attributes it carries: its verdict is the join of
      its constituents' verdicts and of its own redirects and header words *)
   Theorem C03_for : forall c ss fs ks, let t := T $"for" ss fs ks in
-    walk c t = combine (need simple astr mredir cdres injrisk c (child "body" t) ::
-                        wparts simple astr mredir cdres injrisk c (children "words" t) ++
-                        redirs_of simple astr mredir cdres injrisk c t).
-  Proof. exact (walk_for simple astr mredir cdres injrisk). Qed.
+    walk c t = combine (need simple astr mredir cdres injrisk rulematch c (child "body" t) ::
+                        wparts simple astr mredir cdres injrisk rulematch c (children "words" t) ++
+                        redirs_of simple astr mredir cdres injrisk rulematch c t).
+  Proof. exact (walk_for simple astr mredir cdres injrisk rulematch). Qed.
   Theorem C03_case : forall c ss fs ks, let t := T $"case" ss fs ks in
-    walk c t = combine (wparts simple astr mredir cdres injrisk c (children "word" t) ++
-                        pats simple astr mredir cdres injrisk c (children "patterns" t) ++
-                        redirs_of simple astr mredir cdres injrisk c t).
-  Proof. exact (walk_case simple astr mredir cdres injrisk). Qed.
+    walk c t = combine (wparts simple astr mredir cdres injrisk rulematch c (children "word" t) ++
+                        pats simple astr mredir cdres injrisk rulematch c (children "patterns" t) ++
+                        redirs_of simple astr mredir cdres injrisk rulematch c t).
+  Proof. exact (walk_case simple astr mredir cdres injrisk rulematch). Qed.
   Theorem C03_subshell : forall c ss fs ks, let t := T $"subshell" ss fs ks in
-    walk c t = combine (need simple astr mredir cdres injrisk c (child "body" t) :: redirs_of simple astr mredir cdres injrisk c t).
-  Proof. exact (walk_subshell simple astr mredir cdres injrisk). Qed.
+    walk c t = combine (need simple astr mredir cdres injrisk rulematch c (child "body" t) :: redirs_of simple astr mredir cdres injrisk rulematch c t).
+  Proof. exact (walk_subshell simple astr mredir cdres injrisk rulematch). Qed.
 
   (* inside one simple command: the command proper, every redirect, every substitution in its
      words (and the injection-risk rule), joined - no early exit *)
   Theorem C03_simple : forall c ss fs ks, let t := T $"command" ss fs ks in
-    walk c t = combine (wparts simple astr mredir cdres injrisk c (children "words" t) ++
+    walk c t = combine (wparts simple astr mredir cdres injrisk rulematch c (children "words" t) ++
                         cmd_inj injrisk c t ++
-                        redirs_of simple astr mredir cdres injrisk c t ++
-                        cmd_proper simple c t).
-  Proof. exact (walk_command simple astr mredir cdres injrisk). Qed.
+                        redirs_of simple astr mredir cdres injrisk rulematch c t ++
+                        cmd_proper simple rulematch c t).
+  Proof. exact (walk_command simple astr mredir cdres injrisk rulematch). Qed.
 End Oracles.
 Print Assumptions C03_pipeline.
 Print Assumptions C03_pipeline_order.
@@ -120,6 +121,6 @@ Example C03_example :
   let simple := fun (_ : ctx) ws => match ws with [[108;115]] => Allow | [[114;109]] => Ask | _ => Deny end in
   let w s := T $"word" [($"value", s)] [] [] in
   let cmd s := T $"command" [] [] [($"words", w s)] in
-  walk simple (fun _ _ => Ask) (fun _ _ => None) (fun _ t => t) (fun _ _ => false) ([47], false)
+  walk simple (fun _ _ => Ask) (fun _ _ => None) (fun _ t => t) (fun _ _ => false) (fun _ _ => false) ([47], false)
        (nest [WSub; WNeg] (pipeline [cmd [108;115]; cmd [114;109]; cmd [122]])) = Deny.
 Proof. vm_compute. reflexivity. Qed.
